@@ -24,6 +24,22 @@ def wired(run, f, want_forms, what, rule='R12.wire'):
     run.check(len(rets) == 1 and rets[0] in want_forms, rule, f, rets[0] if rets else 'return', '%s (found %s)' % (what, rets))
 
 
+def qutip_export(run, m, fields):
+    """to_qutip of an operator class: each (x, z) pair exported as its Pauli matrix, times i^p (and the coefficient)."""
+    lt = RW.qutip_letters(m)
+    if lt is None:
+        run.undecided('R12.qutip', m, 'to_qutip', 'operator list not found')
+    else:
+        for (x, z), L in sorted(oracle.LETTER.items()):
+            run.check(lt.get((x, z)) == L, 'R12.qutip', m, '(x=%d,z=%d) -> %s' % (x, z, lt.get((x, z))), 'sigma(x=%d,z=%d) = %s must be exported as that matrix' % (x, z, L))
+    txt = ' '.join(norm(s).replace(' ', '') for s, _ in walk(m.node) if isinstance(s, (ast.Return, ast.AugAssign, ast.Expr)))
+    pf = '1j**self.p' if 'g' in fields else '1j**self.ps[l]'
+    run.check(pf in txt, 'R12.qutip', m, 'i^p prefactor', 'the exported matrix carries the phase factor (1j)**p')
+    if 'c' in fields or 'cs' in fields:
+        cf = 'self.c*' if 'c' in fields else 'self.cs[l]*'
+        run.check(cf in txt, 'R12.qutip', m, 'coefficient', 'the exported matrix carries the coefficient')
+
+
 def check(run):
     repo = run.repo
     eff = K.effects_of(repo)
@@ -62,18 +78,7 @@ def check(run):
             # qutip export letters and prefactor
             m = c.methods.get('to_qutip')
             if m is not None:
-                lt = RW.qutip_letters(m)
-                if lt is None:
-                    run.undecided('R12.qutip', m, 'to_qutip', 'operator list not found')
-                else:
-                    for (x, z), L in sorted(oracle.LETTER.items()):
-                        run.check(lt.get((x, z)) == L, 'R12.qutip', m, '(x=%d,z=%d) -> %s' % (x, z, lt.get((x, z))), 'sigma(x=%d,z=%d) = %s must be exported as that matrix' % (x, z, L))
-                txt = ' '.join(norm(s).replace(' ', '') for s, _ in walk(m.node) if isinstance(s, (ast.Return, ast.AugAssign, ast.Expr)))
-                pf = '1j**self.p' if 'g' in fields else '1j**self.ps[l]'
-                run.check(pf in txt, 'R12.qutip', m, 'i^p prefactor', 'the exported matrix carries the phase factor (1j)**p')
-                if 'c' in fields or 'cs' in fields:
-                    cf = 'self.c*' if 'c' in fields else 'self.cs[l]*'
-                    run.check(cf in txt, 'R12.qutip', m, 'coefficient', 'the exported matrix carries the coefficient')
+                qutip_export(run, m, fields)
         # scalar multiples
         RW.check_rmul(run, repo.func(prel, 'Pauli.__rmul__'), field='g')
         RW.check_rmul(run, repo.func(prel, 'PauliList.__rmul__'), field='gs')
